@@ -128,6 +128,13 @@ def run(ctx, rep):
         c07.r_leafargs(sh, rep)
 
     rep.guarded("R07-LEAFARGS", leafargs)
+    rep.rule("R12-TAG", "every site that builds, rebuilds or decodes a constructor uses the index derived from @tag (shared with C12)", floor=4)
+
+    def tag():
+        from . import c12
+        c12.r_tag(sh, rep)
+
+    rep.guarded("R12-TAG", tag)
     rep.rule("R09-CACHE", "a module constant is compiled once and found again under its own (module, name) key only (shared with C09)", floor=4)
 
     def cache():
